@@ -1,0 +1,13 @@
+//! Verification hook for property C50 (compiled only with `--cfg libp2p_verif`).
+//!
+//! A behaviour-level harness has to read the addresses out of a `ToSwarm::Dial` action;
+//! `DialOpts::get_addresses` is crate-private.
+
+use libp2p_core::Multiaddr;
+
+use crate::dial_opts::DialOpts;
+
+/// `DialOpts::get_addresses`.
+pub fn dial_opts_addresses(opts: &DialOpts) -> Vec<Multiaddr> {
+    opts.get_addresses()
+}
